@@ -35,7 +35,7 @@ def place(ctx, spec):
     return path
 
 
-def run_case(ctx, rep, spec, field, dtype, limit, order_id, model, path=None, truth=None, orders=None):
+def run_case(ctx, rep, spec, field, dtype, limit, order_id, model, path=None, truth=None, orders=None, before=None):
     if path is None:
         path = place(ctx, spec)
         truth = plotgen.materialize(spec, path)
@@ -43,13 +43,20 @@ def run_case(ctx, rep, spec, field, dtype, limit, order_id, model, path=None, tr
     names = dedup_names(spec["fields"])
     nlev = len(spec["levels"])
     L = nlev - 1 if limit is None else limit
-    case = {"spec": spec, "field": field, "dtype": dtype, "limit": limit, "order": order_id}
+    case = {"spec": spec, "field": field, "dtype": dtype, "limit": limit, "order": order_id, "before": before}
     nfiles = max(len({f for f, _ in lay}) for lay in spec["layout"])
     rep.case({"s": spec, "f": field, "d": dtype, "l": limit, "o": order_id}, nontrivial=(nlev >= 2 or nfiles >= 2))
     rep.count(f"dtype:{dtype}"); rep.count(f"limit:{limit}"); rep.count(f"files:{min(nfiles, 4)}")
     out = os.path.join(ctx.newdir("c10o_"))
     os.makedirs(out)
     outfile = os.path.join(out, "grid")
+    if before is not None:
+        # the output file already holds the grid of an earlier run (another field, same shape and type)
+        try:
+            run_whip(path, before, dtype, limit, outfile)
+            rep.count("output-file-holds-an-earlier-grid")
+        except BaseException as e:
+            if isinstance(e, KeyboardInterrupt): raise
     try:
         run_whip(path, field, dtype, limit, outfile, finish=orders[order_id % len(orders)])
     except SystemExit as e:
@@ -127,7 +134,8 @@ def run(ctx, rep, model=True):
             dtype = ["float64", "float32"][o % 2 if o > 1 else 0]
             limit = [None, None, nlev - 1, 0, max(nlev - 2, 0), None][o % 6]
             # (the covering-grid model works on integer tags: plotfiles with planted NaN / byte patterns go to the oracle only)
-            run_case(ctx, rep, spec, field, dtype, limit, o * 5 + i, model, path, truth, orders)
+            run_case(ctx, rep, spec, field, dtype, limit, o * 5 + i, model, path, truth, orders,
+                     before=(names[(o + 1) % len(names)] if o == 1 and len(names) >= 2 else None))
         if len(rep.violations) >= 10:
             return
     spec = equal_volume_spec(ctx.rng)
@@ -148,4 +156,4 @@ def equal_volume_spec(rng):
 
 def replay(ctx, rep, obj, model=True):
     c = obj["case"]
-    run_case(ctx, rep, c["spec"], c["field"], c["dtype"], c["limit"], c["order"], model)
+    run_case(ctx, rep, c["spec"], c["field"], c["dtype"], c["limit"], c["order"], model, before=c.get("before"))
